@@ -258,8 +258,12 @@ where
             &VectorDiffContainerStreamElement<S>,
         ) -> Ordering,
     {
-        let mut initial_values = initial_values.into_iter().enumerate().collect::<Vector<_>>();
+        // Sort a plain `Vec`: as of imbl 5.0.0, `Vector::sort_by` is a recursive
+        // quicksort whose depth is linear in the number of items that compare equal,
+        // it overflows the stack for a few thousand of them.
+        let mut initial_values = initial_values.into_iter().enumerate().collect::<Vec<_>>();
         initial_values.sort_by(|(_, left), (_, right)| compare(left, right));
+        let initial_values = Vector::from(initial_values);
 
         (
             initial_values.iter().map(|(_, value)| value.clone()).collect(),
@@ -341,12 +345,12 @@ where
                     .into_iter()
                     .enumerate()
                     .map(|(unsorted_index, value)| (unsorted_index + offset, value))
-                    .collect::<Vector<_>>();
+                    .collect::<Vec<_>>();
 
-                // Now, we can sort `new_values`.
+                // Now, we can sort `new_values` (as a plain `Vec`, see `SortImpl::new`).
                 new_values.sort_by(|(_, left), (_, right)| compare(left, right));
 
-                new_values
+                Vector::from(new_values)
             };
 
             // If `buffered_vector` is empty, all `new_values` are appended.
@@ -700,10 +704,11 @@ where
         }
         VectorDiff::Reset { values: new_values } => {
             // Calculate the `new_values` with their `unsorted_index`.
-            let mut new_values = new_values.into_iter().enumerate().collect::<Vector<_>>();
+            let mut new_values = new_values.into_iter().enumerate().collect::<Vec<_>>();
 
-            // Now, we can sort `new_values`.
+            // Now, we can sort `new_values` (as a plain `Vec`, see `SortImpl::new`).
             new_values.sort_by(|(_, left), (_, right)| compare(left, right));
+            let new_values = Vector::from(new_values);
 
             // Finally, update `buffered_vector` and create the `VectorDiff::Reset`.
             *buffered_vector = new_values.clone();
